@@ -358,6 +358,8 @@ static std::string outpath_for(const Plan& p, const std::string& root) {
         case 11: return "gen[12]/out.c";           // directory names that are glob patterns (C20 only), with sibling directories they match
         case 12: return "build*/o.c";
         case 13: return root + "/abs/v?/m.c";
+        case 14: return "o/m.c";                   // a directory name of one character
+        case 15: return "./o/x/m.c";
         default: return "out/a.c";
     }
 }
@@ -386,7 +388,7 @@ static Plan make_plan(const std::string& prop, uint64_t root, uint64_t idx, bool
     // the pinned "abyss" module (150000 nesting levels) runs with default options: pretty printing would emit output quadratic in the depth
     if (ce.wasm.size() >= 9 && ce.wasm.compare(ce.wasm.size() - 9, 9, "m905.wasm") == 0) p.args.clear();
     if (prop == "C20" ? g.below(2) == 0 : g.below(5) == 0) p.args.push_back({"-c"});
-    p.shape = (int)g.below(prop == "C20" ? 14 : 11);
+    p.shape = (int)g.below(prop == "C20" ? 16 : 11);
     if (prop != "C20" && p.shape == 5) p.shape = 7;   // an output named like an implementation file collides with it: only meaningful for C20
     p.input_in_outdir = g.below(5) == 0;
     // decoys
